@@ -2,3 +2,119 @@
 from .agg import _agg_units
 
 _agg_units("C13", "C13")
+
+import z3  # noqa: E402
+
+from pyvc.state import fresh_id  # noqa: E402
+from pyvc.unit import unit  # noqa: E402
+from pyvc.values import SV, ListObj, Obj, Ref, SetObj, Tup  # noqa: E402
+
+from .common import install_collect_ast, no_raise, returned, sem_of, wf_of  # noqa: E402
+
+
+@unit("C13.calc_at_most_on_rule", "C13", "ngo.sum_aggregates:SumAggregator._calc_at_most_on_rule", fallback={"mirror": "corpus", "trait": "sum_chains"})
+def calc_at_most_on_rule(ctx):
+    """a predicate is reported as 'at most one' only if the rule's head is a choice, or a #sum/#count head aggregate whose
+    elements ALL carry a positive numeric weight, and the bound of that head forces its value to be <= 1 (so at most one
+    element can hold); 'at least one' is only reported together with 'at most one'"""
+    sem, m, ex = sem_of(ctx), ctx.m, ctx.ex
+    wf = wf_of(ctx)
+    A = m.AST
+    F = m.enums["AggregateFunction"][1]
+    st = ctx.state()
+    rule = ctx.sym("rule", "ast")
+    st.assume(wf.wf("Rule", rule.term, 3))
+    # head elements: well-formed two levels below the element, and symbolic atoms carry Function symbols
+    # (pools are removed by normalize; classical negation is the recorded finding C03-classical-negation-crash)
+    hd = A.Rule_head(rule.term)
+    lnq, atq = m.lst_funcs("ast")
+    kq = z3.Int("k!wfh")
+
+    def lit_ok(l):
+        return z3.And(wf.wf("Literal", l, 2, ctx="literal"), z3.Implies(A.is_SymbolicAtom(A.Literal_atom(l)), A.is_Function(A.SymbolicAtom_symbol(A.Literal_atom(l)))))
+
+    ea = atq(A.Aggregate_elements(hd), kq)
+    st.assume(z3.ForAll([kq], z3.Implies(z3.And(A.is_Aggregate(hd), 0 <= kq, kq < lnq(A.Aggregate_elements(hd))), z3.And(A.is_ConditionalLiteral(ea), lit_ok(A.ConditionalLiteral_literal(ea)))), patterns=[ea]))
+    eh = atq(A.HeadAggregate_elements(hd), kq)
+    ch = A.HeadAggregateElement_condition(eh)
+    st.assume(z3.ForAll([kq], z3.Implies(z3.And(A.is_HeadAggregate(hd), 0 <= kq, kq < lnq(A.HeadAggregate_elements(hd))), z3.And(A.is_HeadAggregateElement(eh), A.is_ConditionalLiteral(ch), lit_ok(A.ConditionalLiteral_literal(ch)), wf.wf("HeadAggregateElement", eh, 2))), patterns=[eh]))
+    install_collect_ast(ctx)
+    SA = ("set", "ast")
+    B = ex.ufunc("B_bound", [m.sort(("list", "ast"))], m.sort(SA))
+
+    def cbib(e, s, a, k):
+        lst = e.to_term(s, a[0], ("list", "ast"))
+        return [(s, Tup((s.alloc(SetObj(sv=SV(B(lst), SA))), s.alloc(SetObj(items=())))))]
+
+    ex.overrides["ngo.utils.ast:collect_binding_information_body"] = cbib
+    ctx.assume_note("collect_binding_information_body is uninterpreted")
+    # AggAnalytics is used through its contracts (C13.AggAnalytics.*): guaranteed_leq(n) => every admissible value <= n
+    v = z3.Const("head_value", sem.Val)
+    env = z3.Const("env", sem.Env)
+
+    def guards_hold(node):
+        lg_ = ex.B.ast_field(node, "left_guard")[0][1]
+        rg_ = ex.B.ast_field(node, "right_guard")[0][1]
+        return z3.And(sem.guard_left(lg_, v, env), sem.guard_right(rg_, v, env))
+
+    def agg_init(e, s, a, k):
+        s.heap[a[0].id] = s.heap[a[0].id].set("node", a[1])
+        return [(s, None)]
+
+    def guaranteed(le):
+        def h(e, s, a, k):
+            node = s.heap[a[0].id].get("node").term
+            nt = e.to_term(s, a[1], "int")
+            b = e.ufunc("guaranteed_" + ("leq" if le else "geq"), [m.AST, z3.IntSort()], z3.BoolSort())(node, nt)
+            concl = sem.vle(v, sem.vnum(nt)) if le else sem.vle(sem.vnum(nt), v)
+            s.assume(z3.Implies(b, z3.Implies(guards_hold(node), concl)))
+            return [(s, SV(b, "bool"))]
+
+        return h
+
+    ex.overrides["ngo.utils.ast:AggAnalytics.__init__"] = agg_init
+    ex.overrides["ngo.utils.ast:AggAnalytics.guaranteed_leq"] = guaranteed(True)
+    ex.overrides["ngo.utils.ast:AggAnalytics.guaranteed_geq"] = guaranteed(False)
+    ctx.assume_note("AggAnalytics.__init__/guaranteed_leq/guaranteed_geq are used through their contracts (proved in C13.AggAnalytics.*)")
+    me = ctx.new_object(st, "SumAggregator")
+    res = ctx.call(st, ctx.method("ngo.sum_aggregates", "SumAggregator", "_calc_at_most_on_rule", me), [rule])
+    ok, bad = returned(res)
+    ctx.cover("reach", st)
+    no_raise(ctx, "no-raise", res, kind="assert")
+    head = A.Rule_head(rule.term)
+    ln, at = m.lst_funcs("ast")
+    lg = ex.B.ast_field(head, "left_guard")[0][1]
+    rg = ex.B.ast_field(head, "right_guard")[0][1]
+    bound_leq_1 = z3.Implies(z3.And(sem.guard_left(lg, v, env), sem.guard_right(rg, v, env)), sem.vle(v, sem.vnum(z3.IntVal(1))))
+    k = z3.Int("k!am")
+    el = at(A.HeadAggregate_elements(head), k)
+    w = at(A.HeadAggregateElement_terms(el), 0)
+    positive_weights = z3.ForAll(
+        [k],
+        z3.Implies(
+            z3.And(0 <= k, k < ln(A.HeadAggregate_elements(head))),
+            z3.And(ln(A.HeadAggregateElement_terms(el)) > 0, A.is_SymbolicTerm(w), m.Sym.is_SymNumber(A.SymbolicTerm_symbol(w)), m.Sym.sym_number(A.SymbolicTerm_symbol(w)) > 0),
+        ),
+    )
+    n_rep = 0
+    for n, (s, r) in enumerate(ok):
+        most, least = r.items
+        mi, li = ex.B.concrete_items(s, most), ex.B.concrete_items(s, least)
+        if mi is None or li is None:
+            ctx.oblige(f"result-shape#{n}", s, z3.BoolVal(False))
+            continue
+        if not mi:
+            ctx.oblige(f"post-at-least-implies-at-most#{n}", s, z3.BoolVal(not li), replay={"mirror": "corpus", "trait": "sum_chains"})
+            continue
+        n_rep += 1
+        ctx.oblige(
+            f"post-head-kind#{n}",
+            s,
+            z3.Or(A.is_Aggregate(head), z3.And(A.is_HeadAggregate(head), z3.Or(A.HeadAggregate_function(head) == F["Count"], A.HeadAggregate_function(head) == F["Sum"]))),
+            replay={"mirror": "corpus", "trait": "sum_chains"},
+        )
+        ctx.oblige(f"post-bound-forces-at-most-one#{n}", s, bound_leq_1, replay={"mirror": "corpus", "trait": "sum_chains"})
+        ctx.oblige(f"post-all-weights-positive#{n}", s, z3.Implies(A.is_HeadAggregate(head), positive_weights), replay={"mirror": "corpus", "trait": "sum_chains"})
+        ctx.oblige(f"post-one-predicate#{n}", s, z3.BoolVal(len(mi) == 1 and len(li) <= 1), kind="frame", replay={"mirror": "corpus", "trait": "sum_chains"})
+    ctx.cover("some-reporting-path", [z3.BoolVal(n_rep > 0)])
+    ctx.inputs = {"rule": rule}
